@@ -181,9 +181,29 @@ def atoms : List Expr :=
   [.id "a", .id "b", .id "x1", .const "int" "1", .const "int" "0x2F", .const "unsigned long int" "7UL",
    .const "double" "1.5", .const "float" "2.f", .const "char" "'c'", .const "long double" "3e2L"]
 
+/-- integer constants: every body with every suffix; the type is what the suffix says (C99 6.4.4.1,
+in the AST's wording: `unsigned` for `u`, `long` per `l`) -/
+def intBodies : List String := ["1", "42", "0x2F", "0X1F", "017", "0b101", "0B11", "0xabcdef", "0XFFE", "0"]
+def intSuffixes : List (String × String) :=
+  [("", "int"), ("u", "unsigned int"), ("U", "unsigned int"), ("l", "long int"), ("L", "long int"),
+   ("ul", "unsigned long int"), ("UL", "unsigned long int"), ("lu", "unsigned long int"), ("Lu", "unsigned long int"),
+   ("uL", "unsigned long int"), ("ll", "long long int"), ("LL", "long long int"),
+   ("ull", "unsigned long long int"), ("ULL", "unsigned long long int"), ("llu", "unsigned long long int"),
+   ("LLU", "unsigned long long int"), ("uLL", "unsigned long long int"), ("LLu", "unsigned long long int")]
+
+/-- constants of every kind, with the type their spelling implies -/
+def richAtoms : List Expr :=
+  (intBodies.flatMap fun b => intSuffixes.map fun sf => Expr.const sf.2 (b ++ sf.1)) ++
+  [.const "double" "1.5", .const "float" "2.f", .const "long double" "3e2L", .const "double" "0x1p3",
+   .const "float" "0X1.8P+1f", .const "double" ".5e-3", .const "float" "1.F", .const "long double" "1.l",
+   .const "long double" "0x.8p0L", .const "double" "1E+2", .const "float" "1e1f",
+   .const "char" "'c'", .const "char" "L'c'", .const "char" "u'c'", .const "char" "U'c'", .const "char" "u8'c'",
+   .const "char" "'\\n'", .const "char" "'\\x41'", .const "char" "'\\0'", .const "int" "'ab'", .const "int" "'ul'",
+   .const "string" "\"ab\"", .const "string" "L\"ab\"", .const "string" "u8\"ul\""]
+
 /-- random tree of at most `depth` levels -/
 def randExpr : Nat → Nat → Expr × Nat
-  | 0, s => (pick atoms s, lcg s)
+  | 0, s => (if (s / 7) % 2 == 0 then pick atoms s else pick richAtoms s, lcg s)
   | depth+1, s =>
     let s1 := lcg s
     match (s / 65536) % 15 with
